@@ -173,6 +173,9 @@ func c16Gen(seed int64, idx int) *c16Case {
 				for _, b := range []*big.Int{iv.Lo, iv.Hi} {
 					v := add(b, d)
 					probe(yang.FormatScaled(v, fd))
+					// the whole number next to the bound, written without a fraction part
+					q := new(big.Int).Quo(b, new(big.Int).Exp(bi(10), bi(int64(fd)), nil))
+					probe(add(q, d).String())
 					// fewer fraction digits when they are zero
 					s := yang.FormatScaled(v, fd)
 					if strings.HasSuffix(s, "0") && fd > 1 {
